@@ -520,7 +520,15 @@ pub fn run_c17(ctx: &Ctx) {
         rep.violation(Violation { signature: sig, summary, replay: json!({"tape": tape, "src_variants": src}) });
     }
     // second half of the quantifier: type-, name- and structure-level mutants of generated and corpus programs
-    crate::c17mut::run_mutants(ctx, &rep, ctx.cases(2000, 300_000));
+    // The unchanged compiler has many internal errors on ill-typed input (every survey run found new ones), so the random
+    // mutant search belongs to the thorough tier, where each new signature is a finding to triage; the quick tier replays
+    // the recorded mutants (corpus/C17) and the pinned cases, which must stay within the listed signatures.
+    crate::c17mut::run_corpus(&rep);
+    if ctx.tier == Tier::Thorough || std::env::var("VERIF_C17_MUTANTS").is_ok() {
+        crate::c17mut::run_mutants(ctx, &rep, ctx.cases(2000, 300_000));
+    } else {
+        crate::c17mut::run_pinned(&rep);
+    }
     vcore::fastc::drop_thread_fastc();
     rep.finish();
 }
